@@ -61,8 +61,9 @@ var AssembleOutputRegex = regexp.MustCompile(`^\s*##!=>\s*(.*)$`)
 // in group 3, and whatever follows on the line (e.g., a carriage return) in group 4.
 var RuleRxRegex = regexp.MustCompile(`^(.*?"!?@rx )(.*)(" \\)(.*)`)
 
-// SecRuleRegex matches any SecRule line.
-var SecRuleRegex = regexp.MustCompile(`\s*SecRule`)
+// SecRuleRegex matches any SecRule line: the directive at the start of the line,
+// not a mention of it in a comment or in the text of an action.
+var SecRuleRegex = regexp.MustCompile(`^\s*SecRule\s`)
 
 // RuleIdFileNameRegex matches the rule ID in a regex-assembly file name (<id>-<chain>.ra).
 // The rule ID is captured in group 1, the optional chain offset in group2,
